@@ -1,4 +1,4 @@
-REPO_FIX_COMMITS = ['2d7a94d', '41c6b34', '15c99e7', '0752c0c', '7f84765', 'af57352', 'e33a24d', '5bdc6b3', '08843a4', '3e03bb0', 'd823a64', '3ba8645', '9eda77c', 'f97803c', '7e803d3', '0853a40', '76123e6', '212f09f', '09399f0', '70a9198', '4fa07f3', '3f55be9', '55bbf09', '507f6b1', '5bd0742', '0f36894', 'eecaabf', '1591c67']
+REPO_FIX_COMMITS = ['2d7a94d', '41c6b34', '15c99e7', '0752c0c', '7f84765', 'af57352', 'e33a24d', '5bdc6b3', '08843a4', '3e03bb0', 'd823a64', '3ba8645', '9eda77c', 'f97803c', '7e803d3', '0853a40', '76123e6', '212f09f', '09399f0', '70a9198', '4fa07f3', '3f55be9', '55bbf09', '507f6b1', '5bd0742', '0f36894', 'eecaabf', '1591c67', 'e92728b']
 NOT_APPLICABLE = {}
 CHECKS = {
  'C18': dict(
@@ -188,4 +188,14 @@ CHECKS = {
   note='Worker-pool schedules of differential evolution are not enumerated (outcomes compared for 1, 2, all workers in the '
        'thorough tier); scipy ABNORMAL terminations are not judged on result.fun.',
   design='3/C14'),
+ 'C15': dict(
+  technique='Hypothesis-generated tolerancing runs (lens x operands x perturbations/samplers x compensator x trials); '
+            'differential oracle: every recorded row replayed on a fresh twin lens; history invariants on the lens state',
+  level='Every row of the sensitivity / Monte-Carlo table is replayed on a twin built from the spec (recorded perturbation '
+        'values applied, same compensation, operands evaluated); nominal-value perturbations must reproduce nominal '
+        'operands, identically seeded set-ups identical tables, and the serialised lens must equal the nominal snapshot '
+        'after run() and after reset(). Counter-example search.',
+  note='Perturbation values are absolute values of unscaled variables; rows with undefined operands (ray failure) are '
+       'compared as NaN == NaN; compensated rows at rtol 1e-6.',
+  design='3/C15'),
 }
